@@ -35,12 +35,12 @@ func (g *Gen) shrink(lo, hi int64) (int64, int64) {
 			if lo < 0 {
 				return lo, 0
 			}
-			return lo, lo + int64(g.n(4))
+			return lo, satAdd(lo, int64(g.n(4)))
 		}
 		return lo + 1, hi
 	case lo == MinI:
 		if g.p(50) {
-			return hi - int64(g.n(4)), hi
+			return satAdd(hi, -int64(g.n(4))), hi
 		}
 		return lo, hi - 1
 	}
@@ -48,6 +48,17 @@ func (g *Gen) shrink(lo, hi int64) (int64, int64) {
 		return lo + 1, hi
 	}
 	return lo, hi - 1
+}
+
+// satAdd adds without wrapping around the int64 bounds (a wrapped bound would give a range with lo > hi).
+func satAdd(a, d int64) int64 {
+	if d > 0 && a > MaxI-d {
+		return MaxI
+	}
+	if d < 0 && a < MinI-d {
+		return MinI
+	}
+	return a + d
 }
 
 func (g *Gen) pickR(rs []rng) (int64, int64) { z := rs[g.n(len(rs))]; return z.lo, z.hi }
